@@ -19,6 +19,7 @@ from fractions import Fraction as Fr
 
 from mc import alpha
 from mc.env import guard
+from mc.state import seq
 from tracklib.core.track import Track
 from tracklib.core.obs import Obs
 from tracklib.core.obs_coords import ENUCoords
@@ -62,7 +63,8 @@ DS = [0.5, 1, 2.5, 4, 5, 7, 100]
 NMAX = {"quick": 3, "thorough": 4}
 TPATHS = ["method", "function", "floordiv"]
 SPATHS = ["method", "function", "method-default-mode"]
-EDITED = ["method-after-edit", "function-after-edit"]      # the same calls on a track reached through a history (see build)
+EDITED = ["method-after-edit", "function-after-edit",      # the same calls on a track reached through a history (see build)
+          "method-after-an-empty-request"]                  # ... or right after single-instant requests that found nothing
 TOL_T = 1e-3 + 1e-6
 
 OBLIGATIONS = {
@@ -130,6 +132,15 @@ def build(fx, history="fresh"):
     moved in place to its final value.  What resampling returns may depend on the current observations only."""
     if history == "fresh":
         return Track([Obs(ENUCoords(x, y, z), alpha.obstime(t)) for (x, y, z, t) in fx])
+    if history == "empty-request":
+        # the single-instant form (sample, getMedianObs ...) asked for instants at which the statement returns no observation
+        # (the first timestamp itself, one second before it, one second after the last): refused or empty, the track stays
+        trk = build(fx)
+        for t in (fx[0][3], fx[0][3] - 1.0, fx[-1][3] + 1.0):
+            guard(itp.sample, trk, alpha.obstime(t))
+        one = Track([Obs(ENUCoords(fx[0][0], fx[0][1], fx[0][2]), alpha.obstime(fx[0][3]))])
+        guard(lambda: one.getMedianObs())
+        return trk
     pre = [(x + 3.0 + 2.0 * k, y - 1.0 - k, z, t) for k, (x, y, z, t) in enumerate(fx)]
     mid = (pre[0][0] + 40.0, pre[0][1] + 9.0, 5.0, (fx[0][3] + fx[1][3]) / 2.0)
     pre.insert(1, mid)
@@ -273,7 +284,7 @@ def observe(trk):
     if not isinstance(n, int):
         return "len() is %r" % (n,)
     for name, V in (("X", X), ("Y", Y), ("Z", Z), ("T", T)):
-        if not isinstance(V, list) or len(V) != n:
+        if seq(V) is None or len(V) != n:
             return "%s has not %d entries" % (name, n)
         for v in V:
             if not _num(v):
@@ -285,6 +296,8 @@ def _track_for(path, fx):
     """-> (plain path, guard result of building the track)"""
     if path.endswith("-after-edit"):
         return path[:-len("-after-edit")], guard(build, fx, "edited")
+    if path.endswith("-after-an-empty-request"):
+        return path[:-len("-after-an-empty-request")], guard(build, fx, "empty-request")
     return path, guard(build, fx)
 
 
